@@ -97,9 +97,29 @@ def gen_op(rng, n, closed):
     return {"name": "drop"}
 
 
-def record(rng: random.Random, pair: bool):
+def straight_scripts():
+    """next() only, to exhaustion and two calls beyond: "exactly loops x frame_count frames are
+    produced absent seeks" (MC_RenderIterStraight.tla is the design-level statement)."""
+    out = []
+    for n in (2, 3, 5, 12):
+        for loops in (1, 2, 3):
+            for cache in ({"kind": "bool", "b": True, "n": 0}, {"kind": "bool", "b": False, "n": 0},
+                          {"kind": "int", "b": False, "n": n - 1}, {"kind": "int", "b": False, "n": n}):
+                for own in ("iter", "caller"):
+                    init = {"n": n, "k": 0, "loops": loops, "cache": cache, "own": own}
+                    out.append((init, [{"name": "next"}] * (n * loops + 2)))
+    for k in (3, 6):
+        for own in ("iter", "caller"):
+            init = {"n": 0, "k": k, "loops": 1, "cache": {"kind": "bool", "b": False, "n": 0}, "own": own}
+            out.append((init, [{"name": "next"}] * (k + 2)))
+    return out
+
+
+def record(rng: random.Random, pair: bool, script=None):
     """Run one random history on the real code; returns the trace record (or a direct
     violation tuple if the output cannot even be decoded)."""
+    if script is not None:
+        return _record(rng, pair, script[0], list(script[1]))
     indefinite = rng.random() < 0.2
     n = 0 if indefinite else rng.choice([2, 2, 3, 3, 5, 12])
     k = rng.choice([3, 6]) if indefinite else 0
@@ -110,15 +130,21 @@ def record(rng: random.Random, pair: bool):
         cache = {"kind": "int", "b": False, "n": max(1, (n or 2) + rng.choice([-1, 0, 1, 50]))}
     own = rng.choice(["iter", "iter", "caller"])
     init = {"n": n, "k": k, "loops": loops, "cache": cache, "own": own}
+    return _record(rng, pair, init, None)
+
+
+def _record(rng, pair, init, ops):
+    n, k = init["n"], init["k"]
+    cache = init["cache"]
     iterkit.set_terminal()
     _resized[0] = False
     it = _make(init, cache_arg=cache)
     shadow = _make(init, cache_arg={"kind": "bool", "b": False, "n": 0}) if pair else None
     events = []
-    length = rng.randrange(5, 41)
+    length = rng.randrange(5, 41) if ops is None else len(ops)
     closed_for = 0
-    for _ in range(length):
-        op = gen_op(rng, n, closed_for > 0)
+    for i in range(length):
+        op = gen_op(rng, n, closed_for > 0) if ops is None else dict(ops[i])
         if op["name"] in ("next_fails", "next_reclose"):
             # only meaningful where a render will happen; the probe tells us afterwards
             before = len(it.probe.renders)
@@ -153,7 +179,7 @@ def record(rng: random.Random, pair: bool):
             break
         if real["res"] in ("stop", "stop-finalized", "FinalizedIteratorError") or op["name"] == "close":
             closed_for += 1
-            if closed_for > 3:
+            if closed_for > 3 and ops is None:
                 break
     return {"n": n, "k": k, "init": init, "tell0": it.tell0, "events": events}
 
@@ -205,8 +231,10 @@ def run(rep: Report, n_traces: int, pair: bool = False):
     rng = random.Random(rep.seed * 104729 + 8)
     groups: dict[tuple[int, int], list] = {}
     keep = []  # keep iterators' data alive so that id() stays unique within the batch
-    for _ in range(n_traces):
-        tr = record(rng, pair)
+    scripts = straight_scripts()
+    rep.extra["straight_histories"] = len(scripts)
+    for j in range(n_traces + len(scripts)):
+        tr = record(rng, pair, scripts[j] if j < len(scripts) else None)
         rep.evaluations += 1
         if isinstance(tr, tuple):
             _, init, events, op, real = tr
